@@ -21,6 +21,15 @@ def step (s : St) (ws : List String) : St × String :=
         (s', s!"new cap={capacity s'.g}" ++ wb s')
       else (s, "bad-op")
     | none => (s, "bad-op")
+  | ["newbad", n] =>
+    match n.toNat? with
+    | some n =>
+      if n < 2 ^ 32 then
+        match new? n with
+        | none => (s, "new=NULL")
+        | some g => (s, s!"new=RING cap={capacity g}")
+      else (s, "bad-op")
+    | none => (s, "bad-op")
   | ["write", h] =>
     match bytesOfHex h with
     | some d => let (g', k) := write s.g d; let s' := { s with g := g' }; (s', s!"ret={k}" ++ wb s')
